@@ -172,6 +172,13 @@ TS = 'outrank/task_summary.py'
 
 STR = 'Str'
 RAT = 'Rat'
+STRS = 'StrList'
+CU = 'outrank/core_utils.py'
+
+# `parse_csv_raw`: the header split (anchored by C08, C13 and C16; the model is `Pipeline.headerCols` = C16.splitOn ',' ∘ C16.pyStrip)
+HEADER_SITES = lambda: [  # noqa: E731
+    S('headerFields', 'header.strip().split(col_delimiter)', {'header': ('header', STR), 'col_delimiter': ('d', STR)}),
+]
 
 # translated expression sites: (property, file, qualified function) -> sites.  A site shared by several properties is listed
 # under each of them with a property-specific definition name space (Gen.Src.Cxx).
@@ -274,21 +281,35 @@ SITES = {
         S('isCsv', "args.data_source == 'ob-csv' or args.data_source == 'csv-raw'", {'args.data_source': ('src', STR)}),
     ],
     ('C16', 'outrank/core_utils.py', 'parse_namespace'): [
+        S('nsParts', "line.strip().split(',')", {'line': ('line', STR)}),
         S('twoFieldLine', "len(namespace_parts) == 2 and '_' not in namespace_parts[0]", {'len(namespace_parts)': 'n', 'namespace_parts[0]': ('id', STR)}),
         S('isFloat', "type_name == 'f32'", {'type_name': ('t', STR)}),
     ],
+    # string-valued expressions of the line parsers (whole-function tie: every expression of `parse_ob_line` and every
+    # string expression of `parse_ob_line_vw` is regenerated; the statements around them are tied by the skeleton)
+    ('C16', CU, 'parse_ob_line'): [
+        S('tsvStripped', "line_string.rstrip('\\r\\n')", {'line_string': ('line', STR)}),
+        S('tsvFields', 'line_string.split(delimiter)', {'line_string': ('line', STR), 'delimiter': ('d', STR)}),
+    ],
     ('C16', 'outrank/core_utils.py', 'parse_ob_line_vw'): [
-        S('keepToken', "x != ''", {'x': ('x', STR)}),
+        S('vwParts', "line_string.strip().split('|')", {'line_string': ('line', STR)}),
+        S('vwLabel', "all_line_parts[0].split(' ')[0]", {'all_line_parts': ('parts', STRS)}),
+        S('vwRemainder', 'all_line_parts[1:]', {'all_line_parts': ('parts', STRS)}),
+        S('vwCore', "remaining_part.strip().split(' ')", {'remaining_part': ('part', STR)}),
+        S('vwNamespace', 'core_parts[0]', {'core_parts': ('core', STRS)}),
+        S('vwValue', "'-'.join((x for x in core_parts[1:] if x != ''))", {'core_parts': ('core', STRS)}),
+        S('keepToken', "x != ''", {'x': ('x', STR)}, type='Bool'),          # lies inside `vwValue`; Bool: `if x` is the same test
+        S('vwDropNs', 'x[2:]', {'x': ('x', STR)}),
     ],
     ('C13', CR, 'compute_cardinalities'): [
         S('countedInSketch', 'unique_value', {'unique_value': ('v', STR)}, nth=1, type='Bool'),
     ],
     # header / data-set description readers used by the streaming task
-    ('C08', 'outrank/core_utils.py', 'parse_csv_raw'): [],
+    ('C08', 'outrank/core_utils.py', 'parse_csv_raw'): HEADER_SITES(),
     ('C08', 'outrank/core_utils.py', 'get_dataset_info'): [],
-    ('C16', 'outrank/core_utils.py', 'parse_csv_raw'): [],
+    ('C16', 'outrank/core_utils.py', 'parse_csv_raw'): HEADER_SITES(),
     ('C16', 'outrank/core_utils.py', 'get_dataset_info'): [],
-    ('C13', 'outrank/core_utils.py', 'parse_csv_raw'): [],
+    ('C13', 'outrank/core_utils.py', 'parse_csv_raw'): HEADER_SITES(),
     # ---- transformers keep rule (C12)
     ('C12', TR, 'FeatureTransformerGeneric.__init__'): [
         S('majSupport', '0.8'),
